@@ -76,17 +76,15 @@ def GenerateRxnNet(initial_reactant, reaction_rules):
                 reaction_rules[i] = ReactionFromSmarts(reaction_rules[i])
 
     # generator main algorithm
-    # the same species may be given more than once among the seeds
+    # the same species may be given more than once among the seeds (seeds
+    # that differ in charge, isotope or stereo are different species: the
+    # canonical SMILES tells them apart, the substructure test below does not)
     unprocessed = []
+    seed_smiles = set()
     for mol1 in initial_reactant:
-        inthelist = 0
-        for mol2 in unprocessed:
-            if mol1.GetNumAtoms() == mol2.GetNumAtoms() and \
-                mol1.GetNumAtoms() == len(mol1.GetSubstructMatch
-                                          (mol2)):
-                inthelist = 1
-                break
-        if inthelist == 0:
+        smiles1 = Chem.MolToSmiles(mol1)
+        if smiles1 not in seed_smiles:
+            seed_smiles.add(smiles1)
             unprocessed.append(mol1)
     processed = []
     while unprocessed:
